@@ -14,6 +14,7 @@ import (
 	"encoding/binary"
 	"fmt"
 	"math"
+	"runtime"
 	"sort"
 	"strings"
 
@@ -775,5 +776,91 @@ func init() {
 		for _, k := range ks {
 			fmt.Printf("DIST %s %d\n", k, kinds[k])
 		}
+	}
+}
+
+// alloc (C05): what the receive path allocates on behalf of ONE frame whose
+// inner msgpack lengths claim up to 2^31 elements / bytes while only a few
+// bytes are present, with a large maximum frame length: bounded by a
+// constant plus the maximum frame length.  Measured (runtime.MemStats), not
+// proved.
+func init() {
+	verifModes["alloc"] = func(c *vctx) {
+		g := newPrng(c.seed, 83)
+		const max = 16 << 20
+		const slack = 8 << 20
+		worst := uint64(0)
+		for i := 0; i < c.n; i++ {
+			sc := &streamCase{max: max}
+			e := &altEnc{g: g, alt: true}
+			// a frame announcing up to `max` bytes with a huge inner claim in one of the decoded positions
+			claim := []byte{0x7f, 0xff, 0xff, 0xff}
+			if g.chance(1, 3) {
+				claim = be(4, uint64(1+g.intn(1<<30)))
+			}
+			inner := append([]byte{[]byte{0xdd, 0xdf, 0xdb, 0xc6}[g.intn(4)]}, claim...)
+			var body bytes.Buffer
+			kind := g.intn(5)
+			switch kind {
+			case 0: // call argument
+				body.Write([]byte{0x94, 0x00})
+				e.intv(&body, int64(g.intn(100)))
+				e.str(&body, []byte("p.m"))
+				body.Write(inner)
+			case 1: // tag map
+				body.Write([]byte{0x95, 0x00})
+				e.intv(&body, int64(g.intn(100)))
+				e.str(&body, []byte("p.m"))
+				body.WriteByte(0xc0)
+				body.Write(append([]byte{0xdf}, claim...))
+			case 2: // method name
+				body.Write([]byte{0x94, 0x00})
+				e.intv(&body, int64(g.intn(100)))
+				body.Write(append([]byte{0xdb}, claim...))
+			case 3: // response result / error
+				sc.pend = []pendSpec{{7, 0, true}}
+				body.Write([]byte{0x94, 0x01, 0x07})
+				if g.chance(1, 2) {
+					body.Write(append([]byte{0xdb}, claim...))
+				} else {
+					body.WriteByte(0xc0)
+					body.Write(inner)
+				}
+			default: // nested inside an array argument
+				body.Write([]byte{0x94, 0x02})
+				e.str(&body, []byte("p.n"))
+				body.Write([]byte{0x92, 0x01})
+				body.Write(inner)
+			}
+			body.Write(g.bytes(g.intn(16)))
+			declared := int64(body.Len())
+			if g.chance(2, 3) {
+				declared = int64(max - g.intn(1000)) // announces far more than is present
+			}
+			var fr bytes.Buffer
+			e.intv(&fr, declared)
+			fr.Write(body.Bytes())
+			sc.stream = fr.Bytes()
+			var m0, m1 runtime.MemStats
+			runtime.GC()
+			runtime.ReadMemStats(&m0)
+			out, pan := runPacketizer(sc, [][]byte{sc.stream})
+			runtime.ReadMemStats(&m1)
+			d := m1.TotalAlloc - m0.TotalAlloc
+			if d > worst {
+				worst = d
+			}
+			c.note("alloc kind=%d declared=%d allocated=%d", kind, declared, d)
+			c.op("selfcheck")
+			switch {
+			case pan != nil:
+				c.res("FAIL panic %v", pan)
+			case d > max+slack:
+				c.res("FAIL allocated %d bytes for one frame (limit %d = max %d + %d): stream %x -> %s", d, max+slack, max, slack, sc.stream, out)
+			default:
+				c.res("ok")
+			}
+		}
+		fmt.Printf("STAT worst_allocation_bytes %d\n", worst)
 	}
 }
